@@ -61,7 +61,7 @@ def gen_case(rng):
         tag = c07.canon_semver(f) if rng.random() < 0.5 or max(f["major"], f["minor"], f["patch"]) > 2 ** 32 - 1 else c07.canon_pep440(f)
         argv = ["--source", "none", "--tag-version", tag]
         if rng.random() < 0.75:
-            argv += ["--bumped-branch", hostile(rng)]
+            argv += ["--bumped-branch=" + (hostile(rng))]
         if rng.random() < 0.6:
             argv += ["--bumped-commit-hash", rng.choice([hostile(rng), "g" + "".join(rng.choice("0123456789abcdef") for _ in range(rng.choice([3, 7, 8, 40]))), "0000000", "1234567" + "é"])]
         if rng.random() < 0.5:
